@@ -2,8 +2,14 @@
 from pipes import calendar
 
 
+import os
+
+
 def run(tier, rep):
-    calendar.pipeline(tier, rep)
+    selftest = os.environ.get("VERIF_SELFTEST") == "1"     # mutation self-test: etl side only
+    calendar.pipeline(tier, rep, calibrate=not selftest, walk=not selftest)
+    if selftest:
+        rep.notes.append("VERIF_SELFTEST=1: calibration and walker model checking skipped")
     rep.assumptions += [
         "day 0 = 1970-01-01 is a Thursday and the civil successor with the Gregorian leap rule define the calendar; "
         "the closed forms used by the judge are proved equal to that walker by TLC on the eras listed in the evidence",
